@@ -26,13 +26,15 @@ func (c *ColUUID) DecodeColumn(r *Reader, rows int) error {
 
 func (c ColUUID) EncodeColumn(b *Buffer) {
 	const size = 16
-	offset := len(b.Buf)
+	start := len(b.Buf)
+	offset := start
 	b.Buf = append(b.Buf, make([]byte, size*len(c))...)
 	for _, v := range c {
 		copy(b.Buf[offset:offset+size], v[:])
 		offset += size
 	}
-	bswap.Swap64(b.Buf) // BE <-> LE
+	// Swapping only the appended part, buffer can be non-empty.
+	bswap.Swap64(b.Buf[start:]) // BE <-> LE
 }
 
 // WriteColumn encodes ColUUID rows to *Writer.
